@@ -87,6 +87,8 @@ type cScenario struct {
 	gateCh      chan struct{}
 	nnext       int
 	idle        time.Duration
+	// a connect that succeeded and has not been followed by the client's end yet (error callback, Close or Disconnect returned)
+	live bool
 }
 
 type cDialer struct {
@@ -191,6 +193,9 @@ func (sc *cScenario) newClient() {
 	c.Callback = func(msg *packet.Message, err error) error {
 		if err != nil {
 			sc.log.Add("cb.err", "err", err.Error())
+			sc.mu.Lock()
+			sc.live = false
+			sc.mu.Unlock()
 			return nil
 		}
 		sc.mu.Lock()
@@ -302,7 +307,17 @@ func errS(err error) string {
 func (sc *cScenario) step(st cStep, wait bool) {
 	switch st.Do {
 	case "newclient":
-		// the previous client object must have ended (its connection was cut or closed by the script)
+		// the previous client object must have ended (its connection was cut or closed by the script): wait for its error callback
+		// or the return of Close/Disconnect, not only for a quiet log (a loaded machine is quiet for other reasons)
+		for i := 0; i < 600; i++ {
+			sc.mu.Lock()
+			live := sc.live
+			sc.mu.Unlock()
+			if !live {
+				break
+			}
+			time.Sleep(5 * time.Millisecond)
+		}
 		sc.log.WaitIdle(3*sc.idle, 2*time.Second)
 		sc.newClient()
 	case "connect":
@@ -324,6 +339,9 @@ func (sc *cScenario) step(st cStep, wait bool) {
 			if err != nil {
 				return "", err
 			}
+			sc.mu.Lock()
+			sc.live = true
+			sc.mu.Unlock()
 			return sc.watch("connect", f), nil
 		})
 	case "publish":
@@ -366,9 +384,15 @@ func (sc *cScenario) step(st cStep, wait bool) {
 			}
 			return "", c.Disconnect()
 		})
+		sc.mu.Lock()
+		sc.live = false
+		sc.mu.Unlock()
 	case "close":
 		c := sc.cl
 		sc.api("close", nil, func() (string, error) { return "", c.Close() })
+		sc.mu.Lock()
+		sc.live = false
+		sc.mu.Unlock()
 	case "b.mode":
 		sc.mu.Lock()
 		sc.bauto = st.Mode != "manual"
